@@ -559,6 +559,15 @@ class Interp:
             return False
         if isinstance(v, Node):
             return True
+        if isinstance(v, (_Bound, _Lam, _PyCall, _Closure, _Cls, _Record, type)) or (hasattr(v, "node") and hasattr(v, "module")):
+            return True  # functions, bound methods and classes are truthy
+        if isinstance(v, (Fraction, complex)):
+            return bool(v)
+        if isinstance(v, PyNative):
+            try:
+                return bool(v)
+            except Exception:
+                return True
         raise AnalysisError(f"absint: truth value undecidable at `{ast.unparse(where) if where else v}`")
 
     def iterate(self, it):
@@ -637,6 +646,18 @@ class Interp:
             if names == {"Zero"}:
                 return x.is_zero()
             raise AnalysisError(f"absint: isinstance of a symbolic value against {sorted(names)}")
+        # a class held in a variable (`for k in table.keys(): if isinstance(o, k)`): decided on the value
+        if isinstance(target_node, ast.Name) and target_node.id in env:
+            tv = env[target_node.id]
+            tvs = tv if isinstance(tv, tuple) else (tv,)
+            if tvs and all(isinstance(t_, (type, _Cls)) for t_ in tvs):
+                for t_ in tvs:
+                    if isinstance(t_, type):
+                        if isinstance(x, t_):
+                            return True
+                    elif isinstance(x, Node) and t_.name in self.class_chain(x):
+                        return True
+                return False
         targets = []
 
         def flat(t):
@@ -757,8 +778,9 @@ class Interp:
                 return f
             if e.id == "defaultdict":
                 return _Builtin("defaultdict")
-            if e.id in ("list", "tuple", "dict", "set", "int", "float", "str", "bool"):
-                return {"list": list, "tuple": tuple, "dict": dict, "set": set, "int": int, "float": float, "str": str, "bool": bool}[e.id]
+            if e.id in ("list", "tuple", "dict", "set", "int", "float", "str", "bool", "object", "complex", "bytes"):
+                return {"list": list, "tuple": tuple, "dict": dict, "set": set, "int": int, "float": float, "str": str, "bool": bool, "object": object, "complex": complex,
+                        "bytes": bytes}[e.id]
             if e.id in ("True", "False", "None"):
                 return {"True": True, "False": False, "None": None}[e.id]
             if e.id in _EXC_NAMES:
@@ -1195,6 +1217,13 @@ class Interp:
             raise
         if f is None:
             raise AnalysisError(f"absint: unknown callee `{fn}`")
+        if isinstance(f, type) and issubclass(f, PyNative):
+            try:
+                return f(*vals, **kw)  # a stand-in class supplied by the rule
+            except (Raised, AnalysisError):
+                raise
+            except (TypeError, ValueError, KeyError, IndexError, AttributeError) as ex:
+                raise Raised(f"{type(ex).__name__}: {str(ex)[:60]}")
         if isinstance(f, _Cls):
             return self.construct(f.name, vals, kw)
         if isinstance(f, _Record):
